@@ -50,7 +50,7 @@ Proof.
     split; cbn; try assumption.
     + rewrite I1. cbn. rewrite <- !app_assoc. reflexivity.
     + inversion T1; assumption.
-    + intros H. rewrite (Bd H). inversion T1 as [|? ? Ht _]; subst. cbn in Ht. subst t.
+    + intros H. rewrite (Bd H). inversion T1 as [|? ? Ht _]. cbn in Ht. rewrite Ht, H.
       rewrite Z.eqb_refl. reflexivity.
   - split; cbn; try assumption.
     + rewrite I2, map_app. cbn. rewrite !app_assoc. reflexivity.
@@ -59,7 +59,7 @@ Proof.
     split; cbn; try assumption.
     + rewrite I2. cbn. rewrite <- !app_assoc. reflexivity.
     + inversion T2; assumption.
-    + intros H. rewrite (Bd H). inversion T2 as [|? ? Ht _]; subst. cbn in Ht. subst t.
+    + intros H. rewrite (Bd H). inversion T2 as [|? ? Ht _]. cbn in Ht. rewrite Ht, H.
       rewrite Z.eqb_refl. reflexivity.
   - destruct (p_recvq x) as [|p q] eqn:E; [split; try assumption; rewrite E; assumption|].
     split; cbn; try assumption.
@@ -183,16 +183,28 @@ Qed.
 
 (* ---------------------------------------------------------------- the bytes on the wire (C07) *)
 Section Wire.
-Variables (deflate : list N -> list N) (inflate : list N -> option (list N)).
+Variable deflate : list N -> list N.
 
 (* every frame in flight, packed by net.Conn.WritePacket under the threshold it is tagged with *)
 Definition wire (q : list (Z * ppkt)) : list N :=
-  concat (map (fun e => pack deflate inflate inflate (fst e) [] (snd e)) q).
+  concat (map (fun e => pack deflate (fst e) [] (snd e)) q).
 
 Lemma wire_tagged t q : tagged t q ->
-  wire q = frames deflate inflate inflate t (map (fun e => ([], snd e)) q).
+  wire q = frames deflate t (map (fun e => ([], snd e)) q).
 Proof.
   unfold wire, frames. induction 1 as [|[t' p] q Ht _ IH]; [reflexivity|].
   cbn in Ht. subst t'. cbn. rewrite IH. reflexivity.
 Qed.
 End Wire.
+
+(* a receiver holding the threshold the frames are tagged with recovers every packet in flight, in
+   order, byte for byte, and leaves what follows untouched (C07 stream theorem) *)
+Theorem wire_decodes (deflate : list N -> list N) (inflate : list N -> option (list N)) t q :
+  zlib_inverse deflate inflate -> zlib_fits deflate -> tagged t q ->
+  forall upools old rest, Forall in_domain (map snd q) -> length upools = length q ->
+  run_flat (unpack_seq inflate t upools old) (wire deflate q ++ rest) = FOk (thread old (map snd q)) rest.
+Proof.
+  intros Hi Hf Ht upools old rest Hd Hl. rewrite (wire_tagged deflate t q Ht).
+  pose proof (stream deflate inflate inflate t Hi Hf (map (fun e => ([], snd e)) q) upools old rest) as H.
+  rewrite map_map in H. cbn [snd] in H. rewrite map_length in H. apply H; assumption.
+Qed.
